@@ -340,6 +340,22 @@ class FaultyStorage(Storage):
                              deferred=(self.defer_open is not None and self.opens == self.defer_open))
 
     def delete(self, key):
+        # Removing an entry is not atomic on any provider (rmtree unlinks file by file, an object
+        # store removes object by object): every single removal is a fault point of its own.
+        path = None
+        try:
+            path = self.inner._key_to_path(key)
+        except Exception:  # noqa
+            pass
+        if path is not None and os.path.isdir(path):
+            for name in sorted(os.listdir(path)):
+                if self.point(('unlink', name)) is not None:
+                    raise InjectedFault(f'injected fault removing {name}')
+                fp = os.path.join(path, name)
+                if os.path.isfile(fp) or os.path.islink(fp):
+                    os.unlink(fp)
+            if self.point(('rmdir', key)) is not None:
+                raise InjectedFault('injected fault removing the entry directory')
         return self.inner.delete(key)
 
 
